@@ -12,6 +12,7 @@ CONSTANTS
   Lo = 100
   Hi = 700
   Step = 3
+  RbfDepth = 4
   TightCap = TRUE
 INVARIANTS Synced Bounded BoundedDefault BothSigned Agree NoStall NoAbort Between TxInvariants
 CHECK_DEADLOCK FALSE
